@@ -239,6 +239,68 @@ func c06Collect(n *treeNode, dir string, depth int, out *[]*treeNode, dirs *[]st
 	}
 }
 
+// c06BundleHomes: the content of a bundle sits in the directory of the version that ships it, and every version
+// in the tree has the content of its own bundle there. Walks the whole tree, also the copies nothing uses.
+func c06BundleHomes(ctx context.Context, lc *resolve.LocalClient, n *treeNode, home string) {
+	own := n.ver.VersionKey
+	if n.bundled != nil {
+		own = n.bundled.Version.VersionKey
+	} else {
+		home = n.ver.Name + ">" + n.ver.Version + ">"
+	}
+	kids := make([]*treeNode, 0, len(n.children)+len(n.alias))
+	for _, c := range n.children {
+		kids = append(kids, c)
+	}
+	for _, c := range n.alias {
+		kids = append(kids, c)
+	}
+	for _, c := range kids {
+		if c.bundled != nil {
+			m := c.bundled.Version.Name
+			vAssert(len(m) > len(home) && m[:len(home)] == home, "a bundled copy sits in the directory of the version that ships it")
+		}
+	}
+	if reqs, err := lc.Requirements(ctx, own); err == nil {
+		for _, rq := range reqs {
+			if !c06Mangled(rq.Name) {
+				continue
+			}
+			// a copy that does not satisfy the version's own requirement on that name is discarded and replaced
+			name := rq.Name
+			for i := len(name) - 1; i >= 0; i-- {
+				if name[i] == '>' {
+					name = name[i+1:]
+					break
+				}
+			}
+			replaced := false
+			for _, e := range c06Effective(reqs) {
+				if e.Name != name {
+					continue
+				}
+				if c, cerr := semver.NPM.ParseConstraint(e.Version); cerr != nil || !c.Match(rq.Version) {
+					replaced = true
+				}
+			}
+			if replaced {
+				continue
+			}
+			found := false
+			for _, c := range kids {
+				if c.bundled != nil && c.bundled.Version.PackageKey == rq.PackageKey && c.bundled.Version.Version == rq.Version {
+					found = true
+				}
+			}
+			vCover(true, "the bundle of an installed version looked for")
+			vAssert(found, "an installed version has the content of its own bundle in its directory")
+		}
+	}
+	for _, c := range kids {
+		c06BundleHomes(ctx, lc, c, home)
+	}
+}
+
 func VerifC06Install() {
 	es, rootVK := c06Entries2()
 	lc := c06Client(es, false)
@@ -321,6 +383,9 @@ func VerifC06Install() {
 	vAssert(tree != nil, "the install tree was handed over")
 	if tree == nil {
 		return
+	}
+	if vParam("anybundle") != 0 {
+		c06BundleHomes(ctx, lc, tree, "")
 	}
 	var all []*treeNode
 	var dirs []string
